@@ -221,6 +221,12 @@ def ckpt_name(stem, i) -> str:
     return [f"{stem}.h5", f"{stem.capitalize()}_Run.H5", f"GW_{stem}.hdf5", f"{stem}_Final.HDF5"][i % 4]
 
 
+def as_user_path(path, i):
+    """Users hand over file names as str or as pathlib.Path; every second one is a Path."""
+    import pathlib
+    return pathlib.Path(path) if i % 2 else path
+
+
 def fhex(x: float) -> str:
     """Python float -> Coq PrimFloat literal (bit exact)."""
     import math
